@@ -16,6 +16,8 @@ type FaultSpec struct {
 	K         int    `json:"k,omitempty"`     // burst length
 	UntilStep int    `json:"until,omitempty"` // program step at which a persistent fault stops
 	ShortPct  int    `json:"shortPct"`        // writes: <0 plain error, else short write of that percentage
+	Silent    bool   `json:"silent,omitempty"` // the short write returns a nil error (only the byte count tells)
+	Class     string `json:"class,omitempty"`  // quick tier: Site is taken modulo the sites of this class (header, footer, data, sync, stat, open) found in the baseline run
 }
 
 type C06Extra struct {
@@ -41,6 +43,7 @@ func runFaulted(t TB, p *Program, f *FaultSpec) (nOps int, hits int, kinds map[s
 		e.FS = NewFS(e.Dir)
 		e.FS.DelayAfterFault = 2 * time.Millisecond
 		e.FS.MaxCreates = 4096 // every retried round may create (and remove) a file
+		e.FS.ClassifySites = f == nil
 		e.curStep = &cur
 		if f != nil {
 			spec := *f
@@ -61,7 +64,7 @@ func runFaulted(t TB, p *Program, f *FaultSpec) (nOps int, hits int, kinds map[s
 					return nil
 				}
 				if kind == "write" && spec.ShortPct >= 0 {
-					return &Fault{Short: n * spec.ShortPct / 100}
+					return &Fault{Short: n * spec.ShortPct / 100, SilentShort: spec.Silent}
 				}
 				return &Fault{Short: -1, Err: ErrInjected}
 			}
@@ -81,8 +84,12 @@ func RunC06(t TB, p *Program) *c06Stats {
 		}
 	}
 	st := &c06Stats{labels: map[string]int{}}
-	n, _, _, _ := runFaulted(t, p, nil)
+	n, _, _, hb := runFaulted(t, p, nil)
 	st.baselineN = n
+	byClass := map[string][]int{}
+	for i, c := range hb.FS.SiteClasses {
+		byClass[c] = append(byClass[c], i)
+	}
 	plans := x.Faults
 	if x.All {
 		plans = nil
@@ -90,13 +97,17 @@ func RunC06(t TB, p *Program) *c06Stats {
 			for _, sp := range []int{-1, 0, 50} {
 				plans = append(plans, FaultSpec{Site: site, Shape: "single", ShortPct: sp})
 			}
+			plans = append(plans, FaultSpec{Site: site, Shape: "single", ShortPct: 50, Silent: true})
 			plans = append(plans, FaultSpec{Site: site, Shape: "burst", K: 3, ShortPct: -1})
 			plans = append(plans, FaultSpec{Site: site, Shape: "until", UntilStep: len(p.Ops) / 2, ShortPct: -1})
 		}
 	}
 	for i := range plans {
 		f := plans[i]
-		if n > 0 {
+		if l := byClass[f.Class]; f.Class != "" && len(l) > 0 {
+			f.Site = l[f.Site%len(l)]
+			f.Class = ""
+		} else if n > 0 {
 			f.Site = f.Site % n
 		}
 		q := *p
